@@ -92,6 +92,10 @@ type config struct {
 	MaxStreams int
 	Depth      int
 	Cycles     bool // amplify every transition that returns to "no open stream"
+	// Pause: the client may stop reading from the connection (the server's writes then block after one byte) and
+	// resume; while it does not read, nothing the server wrote is seen or judged, and the client sends only DATA that
+	// fits the windows it has seen (what the server granted in frames it could not yet write is not known to it)
+	Pause bool
 }
 
 // ---------------------------------------------------------------- handler control
@@ -143,6 +147,7 @@ type world struct {
 	keepTrace           bool
 	traceCap            int // >0: keep only about this many most recent trace lines
 	srvIWS, srvMaxFrame int64
+	paused              bool // the client does not read
 }
 
 func newWorld(cfg config) *world {
@@ -281,7 +286,11 @@ func (w *world) send(b []byte) {
 // settle waits for quiescence, feeds the ledger and runs the quiescent-state invariants.
 func (w *world) settle() {
 	synctest.Wait()
-	for _, f := range w.conn.Frames() {
+	var frames []h2wire.Frame
+	if !w.paused {
+		frames = w.conn.Frames()
+	}
+	for _, f := range frames {
 		w.led.SubjFrame(f)
 		if w.keepTrace {
 			extra := ""
@@ -325,6 +334,9 @@ func (w *world) settle() {
 			w.viol = append(w.viol, ledger.Violation{Kind: "excess-data-delivered", Stream: id,
 				Msg: fmt.Sprintf("the handler of stream %d read %d body bytes, only %d were sent within the advertised windows", id, rt, s.DataAccepted)})
 		}
+	}
+	if w.paused {
+		return // what the server owes is in its blocked writes: judged after the client reads again
 	}
 	for _, v := range w.led.Quiesce() {
 		if v.Kind == "window-excess-not-rejected" && w.sc.Valid() {
@@ -483,11 +495,18 @@ func (w *world) enabled() []act {
 		started, busy, returned, _ := w.hstat(h)
 		rb := w.rbusy(h)
 		if started && !busy && !returned {
+			// (no handler writes while the client does not read: the second frame of a write - DATA after HEADERS -
+			// reaches the serve loop while it decides to flush the first; whether it still makes it into the same
+			// flush is a race between two goroutines of the server that the explorer does not own)
 			for _, n := range cfg.WriteN {
-				out = append(out, act{K: "W", S: i, N: n})
+				if !w.paused {
+					out = append(out, act{K: "W", S: i, N: n})
+				}
 			}
 			for _, n := range cfg.WRN {
-				out = append(out, act{K: "WR", S: i, N: n})
+				if !w.paused {
+					out = append(out, act{K: "WR", S: i, N: n})
+				}
 			}
 			if !rb {
 				out = append(out, act{K: "ret", S: i})
@@ -515,6 +534,9 @@ func (w *world) enabled() []act {
 			for _, n := range cfg.DataLen {
 				for _, p := range cfg.Pads {
 					if n+int64(p)+1 > w.srvMaxFrame {
+						continue
+					}
+					if cfg.Pause && (n+int64(p)+1 > s.RecvWin || n+int64(p)+1 > w.led.ConnRecv) {
 						continue
 					}
 					out = append(out, act{K: "data", S: i, N: n, P: p})
@@ -549,6 +571,13 @@ func (w *world) enabled() []act {
 			out = append(out, act{K: "mfs", N: v})
 		}
 	}
+	if cfg.Pause {
+		if w.paused {
+			out = append(out, act{K: "resume"})
+		} else {
+			out = append(out, act{K: "pause"})
+		}
+	}
 	return out
 }
 
@@ -576,6 +605,12 @@ func (w *world) apply(a act) {
 		w.send(h2wire.Settings(h2wire.Setting{ID: 4, Val: uint32(a.N)}))
 	case "mfs":
 		w.send(h2wire.Settings(h2wire.Setting{ID: 5, Val: uint32(a.N)}))
+	case "pause":
+		w.paused = true
+		w.conn.Sv.SetWriteCap(1)
+	case "resume":
+		w.paused = false
+		w.conn.Sv.SetWriteCap(0)
 	case "rst":
 		w.send(h2wire.RST(id, 8))
 	case "data":
@@ -611,7 +646,7 @@ func (w *world) drainReads() {
 func (w *world) key() string {
 	var b strings.Builder
 	b.WriteString(w.led.Key())
-	fmt.Fprintf(&b, "#o%d|", w.opened)
+	fmt.Fprintf(&b, "#o%d p%v|", w.opened, w.paused)
 	for _, id := range w.hids() {
 		h := w.hs[id]
 		if int(id/2) < w.base {
